@@ -442,6 +442,10 @@ func (w *world) source(op Op) string {
 	case "def":
 		var ll []string
 		for i, s := range op.Specs {
+			if s == -1 && op.ID%2 == 0 {
+				ll = append(ll, params[i]) // an unspecialized parameter is specialized on t
+				continue
+			}
 			ll = append(ll, fmt.Sprintf("(%s %s)", params[i], className(w.sfx, s)))
 		}
 		q := ""
